@@ -20,6 +20,24 @@ PROPOSALS = [('new', 'Assoc'), ('upd0', 'Assoc'), ('upd0', 'Dis'), ('new', 'Pre'
 PRE = ['patient-new(A)']
 
 
+# statement-granularity pass: every statement of the SetContextState handler chain is a scheduling point
+LINE_ANCHORS = sched.LineAnchors([
+    ('productandroles/contextprovider.py', '*'),
+    ('provider/sco.py', '*'),
+    ('provider/operations.py', '*'),
+    ('provider/porttypes/contextserviceimpl.py', '*'),
+    ('mdib/providermdib.py', '_transaction_manager'),
+    ('mdib/providermdibxtra.py', 'set_location'),
+    ('mdib/transactions.py', 'disassociate_all'),
+    ('mdib/transactions.py', 'mk_context_state'),
+    ('mdib/transactions.py', 'write_entity'),
+])
+
+
+def _line_weight(label):
+    return 1 if label.startswith('line:') or 'mdib_lock' in label or '_tr_lock' in label else 99
+
+
 def _table(mdib):
     return {s.Handle: (s.DescriptorHandle, s.ContextAssociation.value if s.ContextAssociation is not None else 'No',
                        s.BindingMdibVersion, s.UnbindingMdibVersion, s.BindingEndTime is not None, s.BindingStartTime is not None)
@@ -27,9 +45,11 @@ def _table(mdib):
 
 
 class Run:
-    def __init__(self, scenario, prefix):
+    def __init__(self, scenario, prefix, lines=False):
         self.proposal, self.writer = scenario
         self.s = sched.Scheduler(prefix)
+        if lines:
+            self.s.line_anchors = LINE_ANCHORS
         world.install()
         w = world.World()
         self.w = w
@@ -125,18 +145,22 @@ class Run:
 
 
 def _key(arg):
-    return f'{arg[0][0][0]}:{arg[0][0][1]} || {arg[0][1]} /bound={arg[1]}'
+    return f'{arg[0][0][0]}:{arg[0][0][1]} || {arg[0][1]} /bound={arg[1]}' + ('/statements' if len(arg) > 3 else '')
 
 
 def _explore(acc, job):
     arg, start, expand_only = job
-    scenario, bound, cap = arg
-    name = f'set({scenario[0][0]}:{scenario[0][1]}) || {scenario[1]}'
+    scenario, bound, cap = arg[:3]
+    lines = len(arg) > 3
+    name = f'set({scenario[0][0]}:{scenario[0][1]}) || {scenario[1]}' + (' [statements]' if lines else '')
     outcomes = set()
     found = {}
+    weight = _line_weight if lines else None
 
     def one(prefix):
-        r = Run(scenario, prefix).go()
+        r = Run(scenario, prefix, lines).go()
+        if lines:
+            acc.add('statement-points', r.s.line_points)
         problems, outcome = r.judge()
         return r.s.trace, (outcome, problems, r.s.choices())
 
@@ -153,22 +177,24 @@ def _explore(acc, job):
                 found[kind] = (detail, choices, sched.preemptions(trace))
 
     if expand_only:
-        n, kids = sched.explore(one, bound, on_execution=on_exec, start=[[]], depth_limit=0)
+        n, kids = sched.explore(one, bound, on_execution=on_exec, weight=weight, start=[[]], depth_limit=0)
         acc.emit((_key(arg), kids))
     else:
-        n, capped = sched.explore(one, bound, max_executions=cap, on_execution=on_exec, start=start)
+        n, capped = sched.explore(one, bound, max_executions=cap, on_execution=on_exec, weight=weight, start=start)
         if capped:
             acc.cap(f'race[{name}]', f'a subtree was stopped after {n} schedules')
     for o in outcomes:
         acc.nontrivial(h64(('c10b', name, o)))
     for kind, (detail, choices, pre) in found.items():
         acc.violation(f'race/{kind}/{name}', {'scenario': name, 'detail': detail, 'schedule': choices, 'preemptions': pre},
-                      case={'kind': 'race', 'scenario': [list(scenario[0]), scenario[1]], 'schedule': choices})
+                      case={'kind': 'race', 'scenario': [list(scenario[0]), scenario[1]], 'schedule': choices, 'lines': lines})
 
 
 def run(ctx):
     bound = 1 if ctx.quick else 2
     jobs = [((pr, wr), bound, 4000 if ctx.quick else 60000) for pr in (PROPOSALS[:2] if ctx.quick else PROPOSALS) for wr in WRITERS]
+    jobs += [((pr, wr), 1, 4000 if ctx.quick else 60000, 'lines') for pr in (PROPOSALS[:1] if ctx.quick else PROPOSALS)
+             for wr in (WRITERS[:2] if ctx.quick else WRITERS)]
     ctx.note('race_scenarios', len(jobs))
     ctx.note('race_preemption_bound', bound)
     sched.run_partitioned(ctx, _explore, ctx.rotate(jobs), _key, group=8)
@@ -176,7 +202,7 @@ def run(ctx):
 
 def replay(ctx, case):
     sc = (tuple(case['scenario'][0]), case['scenario'][1])
-    r = Run(sc, case['schedule']).go()
+    r = Run(sc, case['schedule'], bool(case.get('lines'))).go()
     problems, outcome = r.judge()
     for kind, detail in problems:
         ctx.violation(f'race/{kind}', detail)
